@@ -76,6 +76,10 @@ class IntermediateCodeGen(AbstractCodeGen):
 
     @staticmethod
     def transOpers(symbol):
+        if not hasattr(symbol, 'replace'):
+            # the grammar takes an OID value wherever an object is named
+            raise error.PySmiSemanticError('%r given where a symbol name is expected' % (symbol,))
+
         return symbol.replace('-', '_')
 
     def prepData(self, pdata):
